@@ -60,7 +60,7 @@ fn simple_type(name: String, module: usize, bytes: usize, with_vftable: bool, pt
     let vft = with_vftable.then(|| Vft {
         funcs: vec![crate::project::Func {
             vis: true,
-            name: format!("unrelated_{}", name.to_lowercase()),
+            name: format!("unrelated_{}", name.trim_start_matches("r#").to_lowercase()),
             recv: Some(false),
             args: vec![("a".into(), Ty::Prim("u32"))],
             ret: Some(Ty::Prim("u32")),
